@@ -3,41 +3,27 @@
 // Contracts for govc (contract-based deductive verification); comments only.
 package gpurequesthandler
 
-// ---- the three parsers, as deterministic functions of the annotation string -------------------
-//@ define pfVal(s string) real = tuple0(strconv.ParseFloat(s, 64))
-//@ define pfOk(s string) bool = tuple1(strconv.ParseFloat(s, 64)) == nil
-//@ define puVal(s string) int = tuple0(strconv.ParseUint(s, 10, 64))
-//@ define puOk(s string) bool = tuple1(strconv.ParseUint(s, 10, 64)) == nil
-//@ define piVal(s string) int = tuple0(strconv.ParseInt(s, 10, 64))
-//@ define piOk(s string) bool = tuple1(strconv.ParseInt(s, 10, 64)) == nil
-
-// C19: "Every GPU request that admission accepts (fraction, GPU memory, number of fractional
-// devices ...) denotes a finite positive quantity".
-// a well-formed fraction: parses, finite, 0 < f < 1
-//@ define wfFraction(s string) bool = pfOk(s) && isfinite(pfVal(s)) && fval(pfVal(s)) > 0.0 && fval(pfVal(s)) < 1.0
-// a well-formed positive count / amount of memory: a decimal integer n with 1 <= n <= MaxInt64
-// (the scheduler and the binder read it with ParseInt(…, 10, 64))
-//@ define wfPosInt(s string) bool = piOk(s) && 1 <= piVal(s) && piVal(s) <= 9223372036854775807
-
-//@ define maxInt64() int = 9223372036854775807
+//@ import res "github.com/NVIDIA/KAI-scheduler/pkg/common/resources"
+// The parsers as functions of the annotation string (res.pfVal/pfOk, res.puVal/puOk, res.piVal/piOk) and
+// the property-level notions res.wfFraction / res.wfPosInt are defined once, in pkg/common/resources.
 
 // code-level characterisation (exported to callers): what the validator really accepts
-//@ define okFractionCode(s string) bool = pfOk(s) && !(pfVal(s) <= 0.0) && !(pfVal(s) >= 1.0)
-//@ define okUintCode(s string) bool = puOk(s) && puVal(s) >= 1
+//@ define okFractionCode(s string) bool = res.pfOk(s) && !(res.pfVal(s) <= 0.0) && !(res.pfVal(s) >= 1.0)
+//@ define okUintCode(s string) bool = res.puOk(s) && res.puVal(s) >= 1
 
 //@ func validateGpuFractionAnnotation
 //@   props C19
 //@   ieee
 //@   pure
 //@   ensures [exact] (result == nil) == (!hasGpuFractionAnnotation || okFractionCode(gpuFractionFromAnnotation))
-//@   ensures [accepts-wellformed] hasGpuFractionAnnotation && wfFraction(gpuFractionFromAnnotation) ==> result == nil
-//@   ensures [rejects-unparsable] hasGpuFractionAnnotation && !pfOk(gpuFractionFromAnnotation) ==> result != nil
-//@   ensures [rejects-out-of-range] hasGpuFractionAnnotation && isfinite(pfVal(gpuFractionFromAnnotation)) && !(fval(pfVal(gpuFractionFromAnnotation)) > 0.0 && fval(pfVal(gpuFractionFromAnnotation)) < 1.0) ==> result != nil
-//@   ensures [rejects-inf] hasGpuFractionAnnotation && isinf(pfVal(gpuFractionFromAnnotation)) ==> result != nil
-//@   ensures [only-nan-escapes] result == nil && hasGpuFractionAnnotation && !wfFraction(gpuFractionFromAnnotation) ==> pfOk(gpuFractionFromAnnotation) && isnan(pfVal(gpuFractionFromAnnotation))
+//@   ensures [accepts-wellformed] hasGpuFractionAnnotation && res.wfFraction(gpuFractionFromAnnotation) ==> result == nil
+//@   ensures [rejects-unparsable] hasGpuFractionAnnotation && !res.pfOk(gpuFractionFromAnnotation) ==> result != nil
+//@   ensures [rejects-out-of-range] hasGpuFractionAnnotation && isfinite(res.pfVal(gpuFractionFromAnnotation)) && !(fval(res.pfVal(gpuFractionFromAnnotation)) > 0.0 && fval(res.pfVal(gpuFractionFromAnnotation)) < 1.0) ==> result != nil
+//@   ensures [rejects-inf] hasGpuFractionAnnotation && isinf(res.pfVal(gpuFractionFromAnnotation)) ==> result != nil
+//@   ensures [only-nan-escapes] result == nil && hasGpuFractionAnnotation && !res.wfFraction(gpuFractionFromAnnotation) ==> res.pfOk(gpuFractionFromAnnotation) && isnan(res.pfVal(gpuFractionFromAnnotation))
 // the property-derived clause: accepted ==> finite and 0 < f < 1.  The real code accepts "NaN"
 // (lemma: proved at exit, NOT exported to callers, so a red finding cannot make a caller green).
-//@   lemma [finding-nan-fraction] result == nil <==> (!hasGpuFractionAnnotation || wfFraction(gpuFractionFromAnnotation))
+//@   lemma [finding-nan-fraction] result == nil <==> (!hasGpuFractionAnnotation || res.wfFraction(gpuFractionFromAnnotation))
 //@ end
 
 // C19: gpu-memory present ==> 1 <= m <= MaxInt64, where m is what the scheduler / binder read
@@ -46,27 +32,28 @@ package gpurequesthandler
 //@   props C19
 //@   pure
 //@   ensures [exact] (result == nil) == (!hasGpuMemoryAnnotation || okUintCode(gpuMemoryFromAnnotation))
-//@   ensures [in-range-agrees] result == nil && hasGpuMemoryAnnotation && puVal(gpuMemoryFromAnnotation) <= maxInt64() ==> wfPosInt(gpuMemoryFromAnnotation) && piVal(gpuMemoryFromAnnotation) == puVal(gpuMemoryFromAnnotation)
-//@   ensures [rejects-malformed] hasGpuMemoryAnnotation && !piOk(gpuMemoryFromAnnotation) && !puOk(gpuMemoryFromAnnotation) ==> result != nil
-//@   ensures [rejects-nonpositive] hasGpuMemoryAnnotation && piOk(gpuMemoryFromAnnotation) && piVal(gpuMemoryFromAnnotation) <= 0 ==> result != nil
-//@   lemma [finding-uint-memory] result == nil ==> (!hasGpuMemoryAnnotation || wfPosInt(gpuMemoryFromAnnotation))
+//@   ensures [in-range-agrees] result == nil && hasGpuMemoryAnnotation && res.puVal(gpuMemoryFromAnnotation) <= res.maxInt64() ==> res.wfPosInt(gpuMemoryFromAnnotation) && res.piVal(gpuMemoryFromAnnotation) == res.puVal(gpuMemoryFromAnnotation)
+//@   ensures [rejects-malformed] hasGpuMemoryAnnotation && !res.piOk(gpuMemoryFromAnnotation) && !res.puOk(gpuMemoryFromAnnotation) ==> result != nil
+//@   ensures [rejects-nonpositive] hasGpuMemoryAnnotation && res.piOk(gpuMemoryFromAnnotation) && res.piVal(gpuMemoryFromAnnotation) <= 0 ==> result != nil
+//@   lemma [finding-uint-memory] result == nil ==> (!hasGpuMemoryAnnotation || res.wfPosInt(gpuMemoryFromAnnotation))
 //@ end
 
 //@ func validateMultiFractionRequest
 //@   props C19
 //@   pure
 //@   ensures [exact] (result == nil) == (!hasGpuFractionsCount || okUintCode(gpuFractionsCountFromAnnotation))
-//@   ensures [in-range-agrees] result == nil && hasGpuFractionsCount && puVal(gpuFractionsCountFromAnnotation) <= maxInt64() ==> wfPosInt(gpuFractionsCountFromAnnotation) && piVal(gpuFractionsCountFromAnnotation) == puVal(gpuFractionsCountFromAnnotation)
-//@   ensures [rejects-malformed] hasGpuFractionsCount && !piOk(gpuFractionsCountFromAnnotation) && !puOk(gpuFractionsCountFromAnnotation) ==> result != nil
-//@   ensures [rejects-nonpositive] hasGpuFractionsCount && piOk(gpuFractionsCountFromAnnotation) && piVal(gpuFractionsCountFromAnnotation) <= 0 ==> result != nil
-//@   lemma [finding-uint-count] result == nil ==> (!hasGpuFractionsCount || wfPosInt(gpuFractionsCountFromAnnotation))
+//@   ensures [in-range-agrees] result == nil && hasGpuFractionsCount && res.puVal(gpuFractionsCountFromAnnotation) <= res.maxInt64() ==> res.wfPosInt(gpuFractionsCountFromAnnotation) && res.piVal(gpuFractionsCountFromAnnotation) == res.puVal(gpuFractionsCountFromAnnotation)
+//@   ensures [rejects-malformed] hasGpuFractionsCount && !res.piOk(gpuFractionsCountFromAnnotation) && !res.puOk(gpuFractionsCountFromAnnotation) ==> result != nil
+//@   ensures [rejects-nonpositive] hasGpuFractionsCount && res.piOk(gpuFractionsCountFromAnnotation) && res.piVal(gpuFractionsCountFromAnnotation) <= 0 ==> result != nil
+//@   lemma [finding-uint-count] result == nil ==> (!hasGpuFractionsCount || res.wfPosInt(gpuFractionsCountFromAnnotation))
 //@ end
 
 // ---- whole-GPU limit ------------------------------------------------------------------------
-//@ define gpuLimitIn(cs []v1.Container) bool = exists i int :: 0 <= i && i < len(cs) && constants.NvidiaGpuResource in cs[i].Resources.Limits
-//@ define hasWholeGpuLimit(pod *v1.Pod) bool = gpuLimitIn(pod.Spec.Containers) || gpuLimitIn(pod.Spec.InitContainers)
+// "whole GPU" = some regular or init container carries an nvidia.com/gpu limit.  Index i runs over the
+// regular containers followed by the init containers.
+//@ define gpuLimitAt(pod *v1.Pod, i int) bool = ite(i < len(pod.Spec.Containers), constants.NvidiaGpuResource in pod.Spec.Containers[i].Resources.Limits, constants.NvidiaGpuResource in pod.Spec.InitContainers[i - len(pod.Spec.Containers)].Resources.Limits)
+//@ define hasWholeGpuLimit(pod *v1.Pod) bool = exists i int :: 0 <= i && i < len(pod.Spec.Containers) + len(pod.Spec.InitContainers) && gpuLimitAt(pod, i)
 
-//@ define gpuLim(c v1.Container) bool = constants.NvidiaGpuResource in c.Resources.Limits
 //@ func getFirstGPULimit
 //@   props C19
 //@   requires pod != nil
@@ -74,30 +61,22 @@ package gpurequesthandler
 //@   loop 1
 //@     invariant -1 <= rangeindex && rangeindex < len(containers)
 //@     invariant len(containers) == len(pod.Spec.Containers) + len(pod.Spec.InitContainers)
-//@     invariant forall j int :: 0 <= j && j < len(pod.Spec.Containers) ==> (constants.NvidiaGpuResource in containers[j].Resources.Limits) == (constants.NvidiaGpuResource in pod.Spec.Containers[j].Resources.Limits)
-//@     invariant forall k int :: 0 <= k && k < len(pod.Spec.InitContainers) ==> (constants.NvidiaGpuResource in containers[len(pod.Spec.Containers) + k].Resources.Limits) == (constants.NvidiaGpuResource in pod.Spec.InitContainers[k].Resources.Limits)
-//@     invariant forall j int :: 0 <= j && j <= rangeindex ==> !(constants.NvidiaGpuResource in containers[j].Resources.Limits)
+//@     invariant forall j int :: 0 <= j && j < len(containers) ==> (constants.NvidiaGpuResource in containers[j].Resources.Limits) == gpuLimitAt(pod, j)
+//@     invariant forall j int :: 0 <= j && j <= rangeindex ==> !gpuLimitAt(pod, j)
 //@     decreases len(containers) - rangeindex
 //@   ensures [found] result != nil ==> hasWholeGpuLimit(pod)
-//@   ensures [none-regular] result == nil ==> !gpuLimitIn(pod.Spec.Containers)
-//@   ensures [none-init] result == nil ==> !gpuLimitIn(pod.Spec.InitContainers)
+//@   ensures [none] result == nil ==> !hasWholeGpuLimit(pod)
 //@ end
 
 // ---- the validator shared by admission (gpusharing.Validate) and the binder plugin ---------------
-//@ define hasFrac(pod *v1.Pod) bool = constants.GpuFraction in pod.Annotations
-//@ define hasMem(pod *v1.Pod) bool = constants.GpuMemory in pod.Annotations
-//@ define hasCount(pod *v1.Pod) bool = constants.GpuFractionsNumDevices in pod.Annotations
-//@ define fracStr(pod *v1.Pod) string = pod.Annotations[constants.GpuFraction]
-//@ define memStr(pod *v1.Pod) string = pod.Annotations[constants.GpuMemory]
-//@ define countStr(pod *v1.Pod) string = pod.Annotations[constants.GpuFractionsNumDevices]
-//@ define mpsWithoutFraction(pod *v1.Pod) bool = !hasFrac(pod) && !hasMem(pod) && constants.MpsAnnotation in pod.Annotations && pod.Annotations[constants.MpsAnnotation] == "true"
+//@ define mpsWithoutFraction(pod *v1.Pod) bool = !res.hasFrac(pod) && !res.hasMem(pod) && constants.MpsAnnotation in pod.Annotations && pod.Annotations[constants.MpsAnnotation] == "true"
 // combinations that must be rejected whatever the values are (C19: "not both fraction and memory / whole GPU";
 // a device count needs a portion or an amount of memory; MPS only with a fraction)
-//@ define badCombination(pod *v1.Pod) bool = mpsWithoutFraction(pod) || (hasFrac(pod) && hasWholeGpuLimit(pod)) || (hasMem(pod) && (hasFrac(pod) || hasWholeGpuLimit(pod))) || (hasCount(pod) && !hasFrac(pod) && !hasMem(pod))
+//@ define badCombination(pod *v1.Pod) bool = mpsWithoutFraction(pod) || (res.hasFrac(pod) && hasWholeGpuLimit(pod)) || (res.hasMem(pod) && (res.hasFrac(pod) || hasWholeGpuLimit(pod))) || (res.hasCount(pod) && !res.hasFrac(pod) && !res.hasMem(pod))
 // what the code accepts, value-wise
-//@ define valuesOkCode(pod *v1.Pod) bool = (!hasMem(pod) || okUintCode(memStr(pod))) && (!hasFrac(pod) || okFractionCode(fracStr(pod))) && (!hasCount(pod) || okUintCode(countStr(pod)))
+//@ define valuesOkCode(pod *v1.Pod) bool = (!res.hasMem(pod) || okUintCode(res.memStr(pod))) && (!res.hasFrac(pod) || okFractionCode(res.fracStr(pod))) && (!res.hasCount(pod) || okUintCode(res.countStr(pod)))
 // what the property demands, value-wise
-//@ define valuesWellFormed(pod *v1.Pod) bool = (!hasMem(pod) || wfPosInt(memStr(pod))) && (!hasFrac(pod) || wfFraction(fracStr(pod))) && (!hasCount(pod) || wfPosInt(countStr(pod)))
+//@ define valuesWellFormed(pod *v1.Pod) bool = (!res.hasMem(pod) || res.wfPosInt(res.memStr(pod))) && (!res.hasFrac(pod) || res.wfFraction(res.fracStr(pod))) && (!res.hasCount(pod) || res.wfPosInt(res.countStr(pod)))
 
 // C19 (top level): "Every GPU request that admission accepts (fraction, GPU memory, number of
 // fractional devices, whole GPUs ...) denotes a finite positive quantity ... Anything the scheduler
@@ -108,17 +87,17 @@ package gpurequesthandler
 //@   requires pod != nil
 //@   pure
 //@   ensures [exact] (result == nil) == (!badCombination(pod) && valuesOkCode(pod))
-//@   ensures [excl-fraction-whole] result == nil ==> !(hasFrac(pod) && hasWholeGpuLimit(pod))
-//@   ensures [excl-memory-fraction] result == nil ==> !(hasMem(pod) && hasFrac(pod))
-//@   ensures [excl-memory-whole] result == nil ==> !(hasMem(pod) && hasWholeGpuLimit(pod))
-//@   ensures [count-needs-portion] result == nil && hasCount(pod) ==> hasFrac(pod) || hasMem(pod)
+//@   ensures [excl-fraction-whole] result == nil ==> !(res.hasFrac(pod) && hasWholeGpuLimit(pod))
+//@   ensures [excl-memory-fraction] result == nil ==> !(res.hasMem(pod) && res.hasFrac(pod))
+//@   ensures [excl-memory-whole] result == nil ==> !(res.hasMem(pod) && hasWholeGpuLimit(pod))
+//@   ensures [count-needs-portion] result == nil && res.hasCount(pod) ==> res.hasFrac(pod) || res.hasMem(pod)
 //@   ensures [mps-needs-fraction] result == nil ==> !mpsWithoutFraction(pod)
-//@   ensures [accepts-wellformed] !badCombination(pod) && valuesWellFormed(pod) && (hasMem(pod) ==> puOk(memStr(pod))) && (hasCount(pod) ==> puOk(countStr(pod))) ==> result == nil
-//@   ensures [fraction-only-nan-escapes] result == nil && hasFrac(pod) && !wfFraction(fracStr(pod)) ==> pfOk(fracStr(pod)) && isnan(pfVal(fracStr(pod)))
-//@   ensures [memory-only-overflow-escapes] result == nil && hasMem(pod) && !wfPosInt(memStr(pod)) ==> puOk(memStr(pod)) && puVal(memStr(pod)) > maxInt64()
-//@   ensures [count-only-overflow-escapes] result == nil && hasCount(pod) && !wfPosInt(countStr(pod)) ==> puOk(countStr(pod)) && puVal(countStr(pod)) > maxInt64()
+//@   ensures [accepts-wellformed] !badCombination(pod) && valuesWellFormed(pod) && (res.hasMem(pod) ==> res.puOk(res.memStr(pod))) && (res.hasCount(pod) ==> res.puOk(res.countStr(pod))) ==> result == nil
+//@   ensures [fraction-only-nan-escapes] result == nil && res.hasFrac(pod) && !res.wfFraction(res.fracStr(pod)) ==> res.pfOk(res.fracStr(pod)) && isnan(res.pfVal(res.fracStr(pod)))
+//@   ensures [memory-only-overflow-escapes] result == nil && res.hasMem(pod) && !res.wfPosInt(res.memStr(pod)) ==> res.puOk(res.memStr(pod)) && res.puVal(res.memStr(pod)) > res.maxInt64()
+//@   ensures [count-only-overflow-escapes] result == nil && res.hasCount(pod) && !res.wfPosInt(res.countStr(pod)) ==> res.puOk(res.countStr(pod)) && res.puVal(res.countStr(pod)) > res.maxInt64()
 // property-derived clauses the real code does not meet (kept as lemmas: never assumed by callers)
-//@   lemma [finding-nan-fraction] result == nil && hasFrac(pod) ==> wfFraction(fracStr(pod))
-//@   lemma [finding-uint-memory] result == nil && hasMem(pod) ==> wfPosInt(memStr(pod))
-//@   lemma [finding-uint-count] result == nil && hasCount(pod) ==> wfPosInt(countStr(pod))
+//@   lemma [finding-nan-fraction] result == nil && res.hasFrac(pod) ==> res.wfFraction(res.fracStr(pod))
+//@   lemma [finding-uint-memory] result == nil && res.hasMem(pod) ==> res.wfPosInt(res.memStr(pod))
+//@   lemma [finding-uint-count] result == nil && res.hasCount(pod) ==> res.wfPosInt(res.countStr(pod))
 //@ end
